@@ -17,6 +17,7 @@ CONSTANTS
   RunOnArbiterThread = FALSE
   StopBeforeCode = TRUE
   DeregOwnId = TRUE
+  RegBeforeReady = TRUE
   ExecuteOnce = TRUE
   SendFailsWhenGone = TRUE
   JoinWaitsExit = TRUE
